@@ -1,6 +1,7 @@
 """C13 - reception is independent of TCP segmentation (DESIGN §6 C13)."""
 from __future__ import annotations
 
+import asyncio
 import itertools
 
 from .. import explorer, libview, runner
@@ -60,6 +61,53 @@ def run_damaged(job):
 
 
 GAPS = (1.0, 29.0, 61.0, 299.0)
+
+
+def run_lifecycle_from_callback(gen):
+    """The message subscriber itself closes and re-opens the socket while it is being told about a frame (an application
+    that re-initialises on some report).  Frames the console sends on the new connection - whole, cut once anywhere, byte
+    by byte - are delivered once each, in order, over that one new connection."""
+    cp = dict(c06.corpus(gen))
+    first = cp["version"]
+    later = [cp["ac-status"], cp["zone-status"]]
+    raw = b"".join(later)
+    n = 0
+    segmentations = [()] + [(c,) for c in range(1, len(raw))] + [tuple(range(1, len(raw)))]
+    for cuts in segmentations:
+        w = c06.RxWorld(gen)
+        state = {"done": False}
+        sock = w.sock
+
+        async def lifecycle(hdr, msg, w=w, state=state, sock=sock):
+            if not state["done"]:
+                state["done"] = True
+                await sock.close()
+                await sock.open_socket()
+                for _ in range(50):              # ... and it stays in the callback until the new connection is up
+                    if sock.is_connected:
+                        break
+                    await asyncio.sleep(0)
+        lifecycle.__qualname__ = "c13.lifecycle"
+        sock.subscribe_on_message_received(lifecycle)
+        w.net.live()[-1].peer_send(first)
+        w.loop.settle()
+        n += 1
+        if len(w.net.conns) != 2 or not w.net.live():
+            return n, f"at{gen}: after close() + open_socket() from inside a message callback: {len(w.net.conns)} connections, {len(w.net.live())} live"
+        t = w.net.live()[-1]
+        pos = 0
+        for c in list(cuts) + [len(raw)]:
+            t.peer_send(raw[pos:c])
+            pos = c
+            w.loop.settle()
+        w.loop.run_until(w.loop.time() + 3.0)
+        got = [h.message_id for h, m in w.got]
+        want = [framing.split(gen, f)[0][0].typ for f in [first] + later]
+        if got != want or len(w.net.conns) != 2 or w.loop_reports():
+            return n, (f"at{gen}: socket closed and re-opened from inside the callback for the first frame, then {len(later)} frames on the "
+                       f"new connection cut at {cuts if len(cuts) < 4 else 'every byte'}: delivered message types {got}, sent {want}; "
+                       f"connections {len(w.net.conns)}; reports {w.loop_reports()[:1]}")
+    return n, None
 
 
 def _command(gen):
@@ -162,6 +210,11 @@ def run(tier, seed, part=None):
         total += n
         if msg:
             chk.violation(f"at{job[0]}:{job[1]}", msg, {"kind": "input", "module": "pvmc.props.c13", "message": msg})
+    for gen, (n, msg) in zip((4, 5), explorer.pool().map(run_lifecycle_from_callback, [4, 5], chunksize=1)):
+        total += n
+        chk.parts.append({"scenario": f"at{gen}/close+open-from-the-message-callback", "segmentations": n})
+        if msg:
+            chk.violation(f"at{gen}:lifecycle-from-callback", msg, {"kind": "input", "module": "pvmc.props.c13", "message": msg})
     djobs = [(gen, name, frames, good, 2 if tier == "quick" else 3, sh, nsh)
              for gen in (4, 5) for (name, frames, good) in damaged_streams(gen) for sh in range(nsh)]
     for job, (n, msg) in zip(djobs, explorer.pool().map(run_damaged, djobs, chunksize=1)):
